@@ -384,7 +384,7 @@ fn handed_back_with_channel_ready(timed_out_htlcs: Vec<TimedOutHTLC>) -> (r: Vec
 fn handed_back_with_splice_locked(timed_out_htlcs: Vec<TimedOutHTLC>) -> (r: Vec<TimedOutHTLC>)
     ensures
     r@ == timed_out_htlcs@,
- { Vec::new() }
+ { timed_out_htlcs }
 
 fn handed_back_otherwise(timed_out_htlcs: Vec<TimedOutHTLC>) -> (r: Vec<TimedOutHTLC>)
     ensures
